@@ -5,6 +5,14 @@
      helper <table> <name>      -> mask match rvo6_2 rvo1_0 bitpat cva6bits                              *)
 open Zio
 
+let err_s (e : Builder.err) = match e with
+  | Builder.EWrongOffset -> "WrongOffsetException" | EKeyError -> "KeyError"
+  | EWrongAddress -> "WrongAddressException" | ECallNumber -> "CallNumberException"
+  | ERecursive -> "RecursiveCallException" | EMutual -> "MutualCallException"
+  | EScript w -> "Script:" ^ string_of_clist w | EZeroDivision -> "ZeroDivisionError"
+  | EIndexError -> "IndexError" | EAlignment -> "InstructionAlignmentNotDefined"
+  | EEmptyPopulation -> "IndexError" | EValueError -> "ValueError"
+
 let table_of t = match t with
   | "base" -> GenTables.base_table
   | "rimi" -> Types.dict_union GenTables.rimi_table GenTables.base_table
@@ -53,6 +61,22 @@ let () =
            let cv = String.concat "" (List.map (fun b -> if b then "1" else "0") (Disasm.cva6_bits e)) in
            print_string (Printf.sprintf "%s %s %s %s %s %s\n" (string_of_z m) (string_of_z v)
                            (string_of_z (Disasm.rvo_6_2 e)) (string_of_z (Disasm.rvo_1_0 e)) bp cv))
+      | "stub" :: kind :: args ->
+        let a = Array.of_list (List.map z_of_string args) in
+        let tf z = (int_of_z z) <> 0 in
+        let r = (match kind with
+          | "method" -> Builder.build_method_base_call a.(0)
+          | "pic" -> Builder.build_pic_base_call a.(0) a.(1) a.(2)
+          | "imeth" -> Builder.build_interpreter_trampoline_method_call (tf a.(0)) a.(1) a.(2)
+          | "ipic" -> Builder.build_interpreter_trampoline_pic_call (tf a.(0)) a.(1) a.(2) a.(3) a.(4)
+          | "switch" -> Builder.build_switch_case a.(0) a.(1) a.(2) a.(3)
+          | "regsave" -> Builder.build_pc_relative_reg_save a.(0) a.(1)
+          | "fmeth" -> Builder.fixer_method_base_call a.(0)
+          | "fpic" -> Builder.fixer_pic_base_call a.(0) a.(1) a.(2)
+          | _ -> failwith "stub kind") in
+        (match r with
+         | Builder.OK l -> print_string ("OK " ^ String.concat " " (List.map (fun g -> string_of_z (Enc.generate g)) l) ^ "\n")
+         | Builder.Err e -> print_string ("ERR " ^ err_s e ^ "\n"))
       | _ -> print_string "BAD\n")
     done
   with End_of_file -> ()
